@@ -5,7 +5,7 @@
    they were when the test was entered), which the prelude's Back entry then pops. *)
 From Verif Require Import Base.Prelude Model.Tree Model.Spec Model.VM Model.Writer Gen.RunnerGen
   Proofs.SpecProofs Proofs.SpecBoundsProofs Proofs.MaskProofs
-  Proofs.VMU Proofs.VMUOps Proofs.VMUOps2 Proofs.VMUOps3 Proofs.CompileBase Proofs.CompileDefs.
+  Proofs.VMU Proofs.VMUOps Proofs.VMUOps2 Proofs.VMUOps6 Proofs.VMUOps3 Proofs.CompileBase Proofs.CompileDefs.
 From Coq Require Import Relations ZifyBool.
 
 Section CC.
